@@ -127,8 +127,10 @@ def run_formats(ck, tier, pid):
             evs = evs[:9000]
             ck.exhaustive = False
         judge(ck, pid, evs, "model-files", work)
+        withres = [e for e in evs if "results" in e and "text" in e] or [{"text": [], "results": []}]
+        mid = withres[len(withres) // 2]
         ck.samples.append({"source": "file emitted by TLC, read by the real reader",
-                           "text": bytes(evs[len(evs) // 2]["text"]).decode("latin1"), "results": evs[len(evs) // 2]["results"][:3]})
+                           "text": bytes(mid["text"]).decode("latin1"), "results": mid["results"][:3]})
         nontriv = set(json.dumps(e["text"]) for e in evs if len(e["text"]) > 0)
         # (C) random files through the real writers and readers
         rt = os.path.join(work, "random.ndjson")
